@@ -41,7 +41,7 @@ func (e c18Entry) parts() (idx, base string, ok bool) {
 }
 
 func (e c18Entry) mode() string {
-	for _, m := range []string{"exitnow", "noreg", "syncfail", "dielater"} {
+	for _, m := range []string{"exitnow", "noreg", "syncfail", "dielater", "dropidle"} {
 		if strings.Contains(e.File, m) {
 			return m
 		}
@@ -64,9 +64,12 @@ func c18Dirs(tier string, g *rand.Rand) [][]c18Entry {
 		[]c18Entry{{File: "10-good", Kind: "exec"}, {File: "15-syncfail-b", Kind: "exec"}, {File: "30-also", Kind: "exec"}},
 		[]c18Entry{{File: "10-good", Kind: "exec"}, {File: "20-dielater-c", Kind: "exec"}, {File: "30-also", Kind: "exec", ConfSpec: str(""), ConfGen: str("generic-not-used")}},
 		[]c18Entry{{File: "10-stubborn-a", Kind: "exec"}, {File: "20-good", Kind: "exec"}, {File: "30-stubborn-syncfail", Kind: "exec"}},
+		[]c18Entry{{File: "10-dropidle-a", Kind: "exec"}, {File: "20-good", Kind: "exec"}},
+		[]c18Entry{{File: "10-foo", Kind: "exec", ConfSpec: str("specific-10-foo"), ConfGen: str("generic-foo")}, {File: "20-foo", Kind: "exec", ConfGen: str("generic-foo")}},
+		[]c18Entry{{File: "10-bar", Kind: "exec", ConfSpec: str("specific-10-bar")}, {File: "20-bar", Kind: "exec"}, {File: "30-bar", Kind: "exec", ConfSpec: str("specific-30-bar")}},
 		[]c18Entry{{File: "00-a", Kind: "exec"}, {File: "99-z", Kind: "exec"}, {File: "notes.txt", Kind: "noexec"}, {File: "1-short", Kind: "noexec"}, {File: "bin", Kind: "dir"}},
 	)
-	names := []string{"alpha", "beta-x", "c", "logger", "stubborn-q", "very-long-name-with-many-dashes", "x.y", "UPPER", "exitnow-p", "noreg-p", "syncfail-p", "dielater-p"}
+	names := []string{"alpha", "alpha", "beta-x", "c", "logger", "stubborn-q", "dropidle-r", "very-long-name-with-many-dashes", "x.y", "UPPER", "exitnow-p", "noreg-p", "syncfail-p", "dielater-p"}
 	for i := 0; i < tierN(tier, 12, 300); i++ {
 		var d []c18Entry
 		used := map[string]bool{}
@@ -80,10 +83,10 @@ func c18Dirs(tier string, g *rand.Rand) [][]c18Entry {
 				}
 			}
 			f := fmt.Sprintf("%02d-%s", g.IntN(100), nm)
-			if used[nm] {
+			if used[f] {
 				continue
 			}
-			used[nm] = true
+			used[f] = true
 			e := c18Entry{File: f, Kind: []string{"exec", "exec", "exec", "exec", "noexec", "dir"}[g.IntN(6)]}
 			if g.IntN(2) == 0 {
 				e.ConfSpec = str(fmt.Sprintf("specific-%s-%d", nm, g.IntN(1000)))
@@ -127,6 +130,16 @@ func runC18Case(root, probe string, entries []c18Entry, tag string, res *ev.Resu
 	plugins, confd, reports := filepath.Join(root, "plugins"), filepath.Join(root, "conf.d"), filepath.Join(root, "reports")
 	for _, d := range []string{plugins, confd, reports} {
 		os.MkdirAll(d, 0o755)
+	}
+	genericOf := map[string]*string{}
+	for i := range entries {
+		if _, base, ok := entries[i].parts(); ok {
+			if g, seen := genericOf[base]; seen {
+				entries[i].ConfGen = g // one generic drop-in per name
+			} else {
+				genericOf[base] = entries[i].ConfGen
+			}
+		}
 	}
 	for _, e := range entries {
 		p := filepath.Join(plugins, e.File)
@@ -192,11 +205,15 @@ func runC18Case(root, probe string, entries []c18Entry, tag string, res *ev.Resu
 
 	// expected sets
 	var launched, working []c18Entry
+	idleDrop := false
 	for _, e := range entries {
 		if _, _, ok := e.parts(); ok && e.Kind == "exec" {
 			launched = append(launched, e)
-			if m := e.mode(); m == "" || m == "dielater" {
+			if m := e.mode(); m == "" || m == "dielater" || m == "dropidle" {
 				working = append(working, e)
+			}
+			if e.mode() == "dropidle" {
+				idleDrop = true
 			}
 		}
 	}
@@ -298,12 +315,31 @@ func runC18Case(root, probe string, entries []c18Entry, tag string, res *ev.Resu
 			}
 		}
 	}
+	if idleDrop {
+		// a plugin's connection goes away while the runtime is idle; the runtime is then stopped without any
+		// request in between: everything launched must still be gone afterwards
+		for i := 0; i < 400; i++ {
+			if _, err := os.Stat(filepath.Join(reports, "dropped.log")); err == nil {
+				break
+			}
+			time.Sleep(5 * time.Millisecond)
+		}
+		time.Sleep(50 * time.Millisecond)
+	}
 	// a creation request: everyone working is invoked, in index order, and contributes
 	ctrID := tag + "-c1"
+	if idleDrop {
+		ctrID = ""
+	}
 	b := rt.A.BlockPluginSync()
-	rpl, cerr := rt.A.CreateContainer(context.Background(), &api.CreateContainerRequest{Pod: &api.PodSandbox{Id: "p"}, Container: &api.Container{Id: ctrID, PodSandboxId: "p"}})
+	var rpl *api.CreateContainerResponse
+	var cerr error
+	if ctrID != "" {
+		rpl, cerr = rt.A.CreateContainer(context.Background(), &api.CreateContainerRequest{Pod: &api.PodSandbox{Id: "p"}, Container: &api.Container{Id: ctrID, PodSandboxId: "p"}})
+	}
 	b.Unblock()
-	if cerr != nil {
+	if ctrID == "" {
+	} else if cerr != nil {
 		viol("request-failed", fmt.Sprintf("CreateContainer failed: %v", cerr))
 	} else {
 		var order []string
